@@ -105,7 +105,7 @@ pub fn run_explorer_ext(
             st.wall_s,
             st.capped.as_ref().map(|c| format!(" CAPPED: {c}")).unwrap_or_default()
         );
-        if !st.never_executed.is_empty() {
+        if !st.never_executed.is_empty() && spec.depth >= 3 {
             eprintln!("[{prop}] {}: {} alphabet entries never enabled: {:?}", spec.cfg.name, st.never_executed.len(), &st.never_executed[..st.never_executed.len().min(4)]);
         }
         per_cfg.push(json!({
